@@ -982,24 +982,11 @@ where
 
     /// Insert and get node ID
     pub fn insert_and_get_node_id(&mut self, key: &[u8]) -> Result<StateId> {
-        match &mut self.storage {
-            TrieStorage::Patricia { nodes, edge_data, compressed_paths } => {
-                let node_id = Self::insert_patricia_actual(nodes, edge_data, compressed_paths, key)?;
-                self.stats.num_keys += 1;
-                Ok(node_id)
-            }
-            TrieStorage::Louds { louds, is_link, next_link, label_data, core_data, next_trie } => {
-                // Delegate to the LOUDS-specific insert implementation
-                let node_id = Self::insert_louds(louds, is_link, next_link, label_data, core_data, next_trie, key)?;
-                self.stats.num_keys += 1;
-                Ok(node_id)
-            }
-            _ => {
-                // For other storage types, return 0 for now
-                self.stats.num_keys += 1;
-                Ok(0)
-            }
-        }
+        // Trie::insert dispatches on the storage, returns the same node id and
+        // counts a key only the first time it is inserted.
+        // (No update_stats() here: it walks every node and this method is called once
+        // per state by bulk builders; stats() consumers get num_keys from the insert.)
+        <Self as Trie>::insert(self, key)
     }
 
     /// Lookup node ID for a key
